@@ -441,6 +441,14 @@ func (s *Service) validate() error {
 			}
 			ids[arg.ID] = struct{}{}
 		}
+		ids = make(map[int]struct{})
+		for _, exception := range method.Exceptions {
+			if _, ok := ids[exception.ID]; ok {
+				return fmt.Errorf("Duplicate exception id %d in method %s.%s",
+					exception.ID, s.Name, method.Name)
+			}
+			ids[exception.ID] = struct{}{}
+		}
 		if name, ok := duplicateFieldName(method.Arguments); ok {
 			return fmt.Errorf("Duplicate argument name %s in method %s.%s",
 				name, s.Name, method.Name)
